@@ -122,6 +122,7 @@ type Posting struct {
 	Amount  *Amount
 	Cost    *Cost
 	Assert  *Assertion
+	After   []Comment // indented comment lines following the posting line
 	Comment *Comment
 	Trail   string // trailing blanks
 }
@@ -445,6 +446,12 @@ func (r *renderer) tx(t *Tx) {
 			B0: b0, B1: b1, R0: utf8.RuneCountInString(line[:b0]), R1: utf8.RuneCountInString(line[:b1]), U0: u16len(line[:b0]), U1: u16len(line[:b1])}
 		r.spans = append(r.spans[:lineStart], append([]Span{sp}, r.spans[lineStart:]...)...)
 		r.nl()
+		r.post = -1
+		for k := range p.After {
+			r.w(p.Indent)
+			r.comment(&p.After[k], "line")
+			r.nl()
+		}
 	}
 	r.post = -1
 }
